@@ -2066,9 +2066,9 @@ def make_replay(checker_cls):
 
 
 PLAN = {
-    "quick": [("sweep", "h5", 7), ("sweep", "ih5", 8), ("toggle", "h5", 6), ("toggle", "ih5", 5), ("tree", "h5", 4), ("tree", "ih5", 4),
+    "quick": [("sweep", "h5", 7), ("sweep", "ih5", 8), ("toggle", "h5", 6), ("toggle", "ih5", 5), ("tree", "h5", 4), ("tree", "ih5", 4), ("treec", "ih5", 3),
               ("general", "h5", 7), ("general", "ih5", 4), ("walk", "both", 4)],
-    "thorough": [("sweep", "h5", 25), ("sweep", "ih5", 70), ("toggle", "h5", 50), ("toggle", "ih5", 80), ("tree", "h5", 40), ("tree", "ih5", 60),
+    "thorough": [("sweep", "h5", 25), ("sweep", "ih5", 70), ("toggle", "h5", 50), ("toggle", "ih5", 80), ("tree", "h5", 40), ("tree", "ih5", 60), ("treec", "ih5", 30),
                  ("general", "h5", 80), ("general", "ih5", 60), ("walk", "both", 70)],
 }  # fmt: skip
 
@@ -2087,7 +2087,7 @@ def run_driver(checker_cls, tier: str, seed: int, rule: str, assumptions=(), tru
     plan = plan or PLAN["quick" if tier == "quick" else "thorough"]
     total = float(sum(w for _, _, w in plan))
     max_len = 4 if tier == "quick" else 6
-    target = {"toggle": max_len, "tree": 3 if tier == "quick" else 4, "general": max_len}
+    target = {"toggle": max_len, "tree": 3 if tier == "quick" else 4, "treec": 2 if tier == "quick" else 3, "general": max_len}
     bounds: Dict[str, str] = {}
     assumptions = list(assumptions)
     exhaustive = True
@@ -2134,6 +2134,10 @@ def run_driver(checker_cls, tier: str, seed: int, rule: str, assumptions=(), tru
                     m = ex.search(target[name], alphabet_toggle(kind, tier), [["mkds", "/d", 1]], label="toggle")
                 elif name == "tree":
                     m = ex.search(target[name], alphabet_tree(kind, tier, asc), TREE_START, label="tree")
+                elif name == "treec":
+                    # the same tree operations on metadata that lives in a COMMITTED container (patch boundary after the premise):
+                    # links, objects and bookkeeping records then have to be replaced through the overlay, not edited in place
+                    m = ex.search(target[name], alphabet_tree(kind, tier, asc), TREE_START + [["commit"]], label="tree-committed")
                 else:
                     m = ex.search(target[name], alphabet_general(kind, tier, asc), [], label="general", dive_extra=2)
                 if m < target[name]:
